@@ -5,6 +5,7 @@ from rogw.tranp.dsn.dsn import DSN
 from rogw.tranp.errors import Errors
 from rogw.tranp.lang.annotation import duck_typed, injectable
 from rogw.tranp.semantics.procedure import Procedure
+import rogw.tranp.semantics.reflection.definition as refs
 from rogw.tranp.semantics.reflections import Reflections
 from rogw.tranp.syntax.node.node import Node
 from rogw.tranp.transpiler.types import Evaluator
@@ -204,6 +205,10 @@ class LiteralEvaluator:
 	def on_relay(self, node: defs.Relay, receiver: Evaluator.Value) -> Evaluator.Value:
 		# Enum.X.value @see Py2cpp.on_relay
 		if node.prop.tokens == 'value':
+			# XXX 列挙型のメンバーを直接参照している場合(Enum.X.value)のみ対象。列挙型の変数は実行時の値に依存するため不許可 @see Py2Cpp.is_enum_member_ref
+			if not isinstance(node.receiver, defs.Relay) or not self._reflections.type_of(node.receiver.receiver).impl(refs.Object).type_is(type):
+				raise Errors.OperationNotAllowed(node)
+
 			receiver_raw = self._reflections.type_of(node.receiver)
 			var_name = DSN.right(node.receiver.domain_name, 1)
 			var_value = receiver_raw.types.as_a(defs.Enum).var_value(var_name)
